@@ -299,6 +299,10 @@ def run_case(case):
     # ---- the same failure objects may occur more than once in one tree (a failure that is
     # re-raised and collected again): every occurrence is a leaf of the flattened result ----
     shared_leaf = Other('shared')
+    # (a leaf is whatever is not a Concurrent - also an error that carries sub-errors of its own
+    # in attributes that happen to be named like those of a group)
+    shared_leaf.children = (KeyError('sub-error'), IndexError('sub-error'))
+    shared_leaf.flattened = lambda: None
     inner = Concurrent(exc, shared_leaf)
     for tree, want_objects in (
             (Concurrent(exc, exc), real_leaves * 2),
